@@ -302,7 +302,13 @@ pub fn export_ir(cases_path: &str, out_path: &str, summary_path: &str, limit: us
 
 /// zyconf corpus-lower SUMMARY : every repository source that is an accepted executable lowers without internal error
 pub fn corpus_lower(summary_path: &str, out_path: &str) {
-    let files = crate::corpus::source_files();
+    let mut files = crate::corpus::source_files();
+    // regression scenarios kept with the framework
+    if let Ok(rd) = std::fs::read_dir("/verif/scenarios/c18") {
+        let mut extra: Vec<std::path::PathBuf> = rd.filter_map(|e| e.ok()).map(|e| e.path()).filter(|p| p.extension().and_then(|e| e.to_str()) == Some("zy")).collect();
+        extra.sort();
+        files.extend(extra);
+    }
     let results: Vec<(Vec<J>, Option<J>, &'static str)> = par_map_with(
         &files,
         threads(),
